@@ -169,45 +169,71 @@ def record_placement(ctx, r, walmgr):
                     "no segment id is computed from the allocated version in %s" % b.path)
             if not segcalls:
                 continue
-            seg_bbs = set(s.bb for s in segcalls)
+            seg_locs = set((b.path, s.bb) for s in segcalls)
+
+            def loc(body, l):
+                return l[2] if isinstance(l[2], tuple) else (body.path, l[2])
+            # the decision and the open may sit in a private helper or a closure of this body: look through all of
+            # them, tracing helper parameters and captured variables back to this body
+            scope = [prog.bodies[p] for p in sorted(prog.reachable_bodies([b]))]
             # (b) open_writer(seg)
-            opens = [s for s in b.calls() if prog.local_target(s) is not None and
-                     any(e.kind == "FS_OPEN" and "WAL" in e.classes and e.site.body.path in
-                         prog.reachable_bodies([prog.local_target(s)]) for e in ctx.fx.effects) and
-                     "WAL_WRITE" not in sem_set(e for e in ctx.may.site_events(s) if ctx._concrete(e))]
-            for o in opens:
-                la = set()
-                for a in o.term["args"][1:]:
-                    la |= sl.leaves_of_operand(a)
-                r.check(any(l[0] == "call" and l[2] in seg_bbs for l in la) and len(la) == 1, "writer-for-target-segment", b,
-                        "the writer opened at %s is for the segment of the allocated version" % site_where(o),
-                        "the writer opened at %s is for segment %s, not the one computed from the version" % (
-                            site_where(o), sorted(fmt_leaf(l) for l in la)), site_where(o))
+            n_open = 0
+            for sb in scope:
+                ssl = Slicer(ctx.world, sb, follow_local=False)
+                opens = [s for s in sb.calls() if prog.local_target(s) is not None and
+                         any(e.kind == "FS_OPEN" and "WAL" in e.classes and e.site.body.path in
+                             prog.reachable_bodies([prog.local_target(s)]) for e in ctx.fx.effects) and
+                         "WAL_WRITE" not in sem_set(e for e in ctx.may.site_events(s) if ctx._concrete(e)) and
+                         prog.adt_of(sb.locals[place_of(s.term["args"][0])["l"]])[0] != walmgr
+                         if s.term["args"] and place_of(s.term["args"][0]) is not None]
+                for o in opens:
+                    la = set()
+                    for a in o.term["args"][1:]:
+                        la |= ssl.leaves_up(a, depth=4)
+                    if not la:
+                        continue
+                    n_open += 1
+                    r.check(any(l[0] == "call" and loc(sb, l) in seg_locs for l in la) and len(la) == 1,
+                            "writer-for-target-segment", sb,
+                            "the writer opened at %s is for the segment of the allocated version" % site_where(o),
+                            "the writer opened at %s is for segment %s, not the one computed from the version" % (
+                                site_where(o), sorted(fmt_leaf(l) for l in la)), site_where(o))
             # (a) roll-over decision compares writer.segment_id with the target segment
             cmp_ok = False
-            for s in b.calls():
-                for tg, how in prog.call_targets(s):
-                    if how != "extern-cb":
-                        continue
-                    csl = Slicer(ctx.world, tg)
-                    for sw in tg.normal_blocks():
-                        pass
-                    # closure body: `w.segment_id() != target`
-                    for bb2 in tg.normal_blocks():
-                        for st in tg.stmts(bb2):
-                            if st["k"] == "assign" and st["rv"]["k"] == "binop" and st["rv"]["op"] in ("Ne", "Eq"):
-                                la = csl.leaves_of_operand(st["rv"]["a"]) | csl.leaves_of_operand(st["rv"]["b"])
-                                if any(l[0] == "upvar" for l in la) and any(l[0] == "call" or (l[0] == "param" and l[2]) for l in la):
-                                    # the captured value is the target segment
-                                    for (dbb, j, rv) in b.assignments().get(place_of(s.term["args"][1])["l"], []) \
-                                            if len(s.term["args"]) > 1 and place_of(s.term["args"][1]) else []:
-                                        if j != "term" and rv["k"] == "agg":
-                                            for op in rv["ops"]:
-                                                if any(l[0] == "call" and l[2] in seg_bbs for l in sl.leaves_of_operand(op)):
-                                                    cmp_ok = True
+            for sb in scope:
+                ssl = Slicer(ctx.world, sb)
+                for bb2 in sb.normal_blocks():
+                    for st in sb.stmts(bb2):
+                        if not (st["k"] == "assign" and st["rv"]["k"] == "binop" and st["rv"]["op"] in ("Ne", "Eq")):
+                            continue
+                        sides = [ssl.leaves_up(st["rv"]["a"], depth=4), ssl.leaves_up(st["rv"]["b"], depth=4)]
+                        for x, y in ((0, 1), (1, 0)):
+                            tgt_side = bool(sides[x]) and all(l[0] == "call" and loc(sb, l) in seg_locs for l in sides[x])
+                            wr_side = bool(sides[y]) and all(_of_writer(ctx, ssl, l) for l in sides[y])
+                            if tgt_side and wr_side:
+                                cmp_ok = True
             r.check(cmp_ok, "rollover-compare", b,
                     "roll-over is decided by comparing the active writer's segment with the target segment",
-                    "cannot find the comparison between the active writer's segment id and the target segment in %s" % b.path)
+                    "cannot find the comparison between the active writer's segment id and the target segment in %s "
+                    "(or its helpers)" % b.path)
+
+
+def _of_writer(ctx, sl, l):
+    """The leaf is a value read from a buffered segment writer: a field of it, or the result of one of its methods."""
+    prog = ctx.prog
+    from .c14 import owns_bufwriter
+    if l[0] == "call":
+        t = sl.call_at(l[2])
+        body = sl.body_at(l[2])
+        if not t["args"]:
+            return False
+        pl = place_of(t["args"][0])
+        return pl is not None and owns_bufwriter(prog, ctx.world._place_ty(body, pl))
+    if l[0] == "param" and l[2]:
+        return owns_bufwriter(prog, sl.body.locals[l[1]])
+    if l[0] == "xparam" and l[2]:
+        return owns_bufwriter(prog, prog.bodies[l[1][0]].locals[l[1][1]])
+    return False
 
 
 def prune_bound(ctx, r, walmgr):
